@@ -13,7 +13,7 @@ seams.boot()
 from bubus.helpers import retry  # noqa: E402
 
 LEVEL = 'model_checking'
-RULE = ('semaphore_limit L in {1,2}; 2-4 concurrent callers, some arriving later (after or before an earlier caller finished, as the explorer chooses); scopes global / class / self with colliding and distinct semaphore names, two classes, two instances; bodies that wait on the '
+RULE = ('semaphore_limit L in {1,2}; 2-4 concurrent callers, some arriving later (after or before an earlier caller finished, as the explorer chooses); scopes global / class / self with colliding and distinct semaphore names, two classes, two instances (also with objects whose truth value is False); bodies that wait on the '
         'environment, raise, or overrun the per-attempt timeout (with a retry); callers cancelled while waiting for a slot and while running; semaphore_timeout 0.5 s as a timer target with '
         'semaphore_lax True/False; the whole caller program is run on TWO successive virtual event loops in one execution without clearing the semaphore registry; after each round a black-box '
         'capacity probe (L fresh callers must enter at once, the L+1st must wait). all schedules <= L deviations. non-trivial = some caller had to wait for a slot or was cancelled / timed out; '
@@ -64,6 +64,12 @@ class SemWorld:
         names = p['names']  # e.g. ('s', 's') colliding or ('s', 't') distinct or (None, None): default = function name (both called 'work')
         SvcA.work = mk(names[0])
         SvcB.work = mk(names[1])
+        for cls in (SvcA, SvcB):
+            # 'falsy': the objects the methods are bound to have truth value False (an empty pool / inbox: __len__ == 0); a scope is an object, not its truth value
+            if p.get('falsy'):
+                cls.__len__ = lambda self_: 0
+            elif '__len__' in cls.__dict__:
+                del cls.__len__
         self.inst = {'a1': SvcA(), 'a2': SvcA(), 'b1': SvcB()}
 
     def key_of(self, inst):
@@ -248,6 +254,8 @@ def families(tier):
                 continue
         p = dict(L=L, scope=scope, names=names, callers=caller_sets[cs], lax=lax, sem_timeout=st, cancel=cancel, retries=1 if cs == 'overrun' else 0, timeout=1.0, rounds=2)
         out.append(dict(prop='C20', family='c20.semaphore', id=f'c20/L{L}-{scope}-{names[0]}{names[1]}-{cs}-lax{int(lax)}-st{st}-x{cancel}', cfg=cfg, p=p))
+        if scope != 'global' and cs in ('2inst', '2cls', '3same', '4mix') and cancel is None and (deep or names != ('s', 't')):
+            out.append(dict(prop='C20', family='c20.semaphore_on_falsy_objects', id=f'c20/falsy-L{L}-{scope}-{names[0]}{names[1]}-{cs}-lax{int(lax)}-st{st}', cfg=cfg, p=dict(p, falsy=True)))
     return out
 
 
